@@ -11,7 +11,7 @@ TARGETS = ['BC.Props.C01']
 PROP_FILES = ['BC/Props/C01.lean', 'BC/Lemmas/Vec.lean', 'BC/Lemmas/C01Conv.lean']
 # source ties: function bodies regenerated from the Python source by translate/t_funcs.py, proved equal to the model functions
 SRC = {'module': 'BC.Props.C01Src', 'file': 'BC/Props/C01Src.lean',
-       'theorems': ['C01_src_step', 'C01_src_vec_magnitude', 'C01_src_vec_mul_by_const', 'C01_src_vec_add', 'C01_src_vec_sub', 'C01_src_wind_vector', 'C01_src_barrel_elevation', 'C01_src_barrel_azimuth', 'C01_src_drag_by_mach']}
+       'theorems': ['C01_src_step', 'C01_src_initial_state', 'C01_src_vec_magnitude', 'C01_src_vec_mul_by_const', 'C01_src_vec_add', 'C01_src_vec_sub', 'C01_src_wind_vector', 'C01_src_barrel_elevation', 'C01_src_barrel_azimuth', 'C01_src_drag_by_mach']}
 THEOREMS = ['C01_step_is_scheme', 'C01_iterate_physics', 'C01_env_of_shot', 'C01_initial_state', 'C01_barrel_direction',
             'C01_vacuum_closed_form', 'C01_vacuum_bound', 'C01_converges_partial', 'C01_first_order', 'C01_model_converges_partial']
 STATEMENTS = {
